@@ -879,6 +879,10 @@ def _refresh_elementwise_output_shape(node: ir.Node) -> None:
     src = _elementwise_shape_source(ins)
     if src is None:
         return
+    if any(iv is not None and _shape_dims_seq(iv.shape) is None for iv in ins):
+        # An operand of unknown shape makes the broadcast result unknown: the
+        # remaining operands alone must not decide what the output declares.
+        return
     if node.op_type in {"Cast", "CastLike", "Not"}:
         # These ops can change dtype; keep existing dtype metadata untouched.
         _copy_shape_only(outs[0], src)
